@@ -3,6 +3,7 @@ import random
 
 import core
 import session_common as sc
+import session_model as sm
 import tlc
 
 PROBES = [("probe_session", "asan", None, ["utest"]), ("probe_session", "plain", None, ["utest"])]
@@ -43,6 +44,7 @@ def exec_from_hist(hist, H):
 
 
 def run(ctx):
+    sm.check_state_machine(ctx)      # SessionStates.tla: the whole state machine; every recorded call is labelled against it
     for cfg in (("MC_Heartbeat_H5.cfg",) if ctx.quick else ("MC_Heartbeat_H5.cfg", "MC_Heartbeat_H10.cfg")):
         r = tlc.check("Heartbeat.tla", cfg, timeout=1500)
         if not r["ok"]:
